@@ -1,4 +1,337 @@
 (** C14 — property theorems (statements + [exact] + [Print Assumptions] only). *)
 From RainVerif Require Import Params.
 From RainVerif.model Require Import Bytes Bloom FilterBlock.
+From RainVerif.proofs Require Import BloomProofs FilterBlockProofs.
 Open Scope N_scope.
+
+(** ** 1. Bloom filter policy: no false negatives, for ANY hash function *)
+
+Theorem C14_bloom_no_false_negative :
+  forall (hash : bytes -> N) (k bpk : N) (keys : list bytes) (key filter : bytes),
+    k < 256 ->
+    filter_bits bpk (N.of_nat (length keys)) < 4294967296 ->   (* [as u32] is the identity *)
+    create_filter hash k bpk keys = Some filter ->
+    In key keys ->
+    key_may_match hash key filter = MOk true.
+Proof. exact bloom_no_false_negative. Qed.
+Print Assumptions C14_bloom_no_false_negative.
+
+(** Stronger: neither [k < 256] nor the no-truncation hypothesis is needed, only that creation
+    did not panic (creation and lookup agree on the truncated modulus, which never exceeds the
+    real bit count; the stored probe count [k mod 256] never exceeds [k]). *)
+Theorem C14_bloom_no_false_negative_strong :
+  forall (hash : bytes -> N) (k bpk : N) (keys : list bytes) (key filter : bytes),
+    create_filter hash k bpk keys = Some filter ->
+    In key keys ->
+    key_may_match hash key filter = MOk true.
+Proof. exact bloom_no_false_negative_strong. Qed.
+Print Assumptions C14_bloom_no_false_negative_strong.
+
+(** the hypotheses are satisfiable: no panic when the bit count fits in a u32 ... *)
+Theorem C14_create_filter_some :
+  forall (hash : bytes -> N) (k bpk : N) (keys : list bytes),
+    filter_bits bpk (N.of_nat (length keys)) < 4294967296 ->
+    exists filter, create_filter hash k bpk keys = Some filter.
+Proof. exact create_filter_some. Qed.
+Print Assumptions C14_create_filter_some.
+
+(** ... and the bit count (the modulus) is at least 64, in particular non-zero *)
+Theorem C14_filter_bits_ge_64 : forall bpk n, 64 <= filter_bits bpk n.
+Proof. exact filter_bits_ge_64. Qed.
+Print Assumptions C14_filter_bits_ge_64.
+
+Theorem C14_num_probes_le_30 : forall bpk, num_probes bpk <= 30.
+Proof. exact num_probes_le_30. Qed.
+Print Assumptions C14_num_probes_le_30.
+
+(** the instance used by raindb *)
+Theorem C14_bloom_policy :
+  forall (bpk : N) (keys : list bytes) (key filter : bytes),
+    filter_bits bpk (N.of_nat (length keys)) < 4294967296 ->
+    bloom_create bpk keys = Some filter ->
+    In key keys ->
+    bloom_match key filter = MOk true.
+Proof. exact bloom_policy. Qed.
+Print Assumptions C14_bloom_policy.
+
+Theorem C14_bloom_policy_strong :
+  forall (bpk : N) (keys : list bytes) (key filter : bytes),
+    bloom_create bpk keys = Some filter ->
+    In key keys ->
+    bloom_match key filter = MOk true.
+Proof. exact bloom_policy_sound. Qed.
+Print Assumptions C14_bloom_policy_strong.
+
+Theorem C14_bloom_create_some :
+  forall (bpk : N) (keys : list bytes),
+    filter_bits bpk (N.of_nat (length keys)) < 4294967296 ->
+    exists filter, bloom_create bpk keys = Some filter.
+Proof. exact bloom_create_some. Qed.
+Print Assumptions C14_bloom_create_some.
+
+(** ** 2. Filter block: every key of every data block matches at the block's start offset.
+    [events_of blocks]: for each block [(keys, end_offset)] an [EvKey] per key, then
+    [EvNotify end_offset]; [block_start blocks i] is 0 for [i = 0], else the end offset of
+    block [i-1]. *)
+
+Theorem C14_filter_block_no_false_negative :
+  forall (pcreate : list bytes -> option bytes) (E : N)
+         (pmatch : bytes -> bytes -> match_result),
+    (forall keys f k, pcreate keys = Some f -> In k keys -> pmatch k f = MOk true) ->
+    (forall keys f, pcreate keys = Some f -> keys <> [] -> f <> []) ->
+    forall (blocks : list (list bytes * N)) (data : bytes) (r : freader),
+      E < 64 ->
+      (forall i ks e, nth_error blocks i = Some (ks, e) -> block_start blocks i <= e) ->
+      blen data < 4294967296 ->
+      build_filter_block pcreate E (events_of blocks) = Some data ->
+      fr_new data = FOk r ->
+      forall i keys endoff key,
+        nth_error blocks i = Some (keys, endoff) -> In key keys ->
+        fr_key_may_match pmatch r (block_start blocks i) key = Some true.
+Proof. exact filter_block_no_false_negative. Qed.
+Print Assumptions C14_filter_block_no_false_negative.
+
+(** the same when the last block is not followed by a notification *)
+Theorem C14_filter_block_no_false_negative_open :
+  forall (pcreate : list bytes -> option bytes) (E : N)
+         (pmatch : bytes -> bytes -> match_result),
+    (forall keys f k, pcreate keys = Some f -> In k keys -> pmatch k f = MOk true) ->
+    (forall keys f, pcreate keys = Some f -> keys <> [] -> f <> []) ->
+    forall (blocks : list (list bytes * N)) (data : bytes) (r : freader),
+      E < 64 ->
+      (forall i ks e, nth_error blocks i = Some (ks, e) -> block_start blocks i <= e) ->
+      blen data < 4294967296 ->
+      build_filter_block pcreate E (events_of_open blocks) = Some data ->
+      fr_new data = FOk r ->
+      forall i keys endoff key,
+        nth_error blocks i = Some (keys, endoff) -> In key keys ->
+        fr_key_may_match pmatch r (block_start blocks i) key = Some true.
+Proof. exact filter_block_no_false_negative_open. Qed.
+Print Assumptions C14_filter_block_no_false_negative_open.
+
+(** general form over arbitrary event lists with non-decreasing notification offsets: a key is
+    found when queried at the offset of the last notification preceding it *)
+Theorem C14_filter_block_events :
+  forall (pcreate : list bytes -> option bytes) (E : N)
+         (pmatch : bytes -> bytes -> match_result),
+    (forall keys f k, pcreate keys = Some f -> In k keys -> pmatch k f = MOk true) ->
+    (forall keys f, pcreate keys = Some f -> keys <> [] -> f <> []) ->
+    forall (evs : list fb_event) (data : bytes) (r : freader),
+      E < 64 ->
+      offs_mono 0 evs ->
+      blen data < 4294967296 ->
+      build_filter_block pcreate E evs = Some data ->
+      fr_new data = FOk r ->
+      forall pre key post, evs = pre ++ EvKey key :: post ->
+        fr_key_may_match pmatch r (last_off 0 pre) key = Some true.
+Proof. exact filter_block_events_sound_split. Qed.
+Print Assumptions C14_filter_block_events.
+
+(** sharper size condition (only the concatenated filters must stay below 4 GiB) *)
+Theorem C14_filter_block_events_sharp :
+  forall (pcreate : list bytes -> option bytes) (E : N)
+         (pmatch : bytes -> bytes -> match_result),
+    (forall keys f k, pcreate keys = Some f -> In k keys -> pmatch k f = MOk true) ->
+    (forall keys f, pcreate keys = Some f -> keys <> [] -> f <> []) ->
+    forall (evs : list fb_event) (fs : list bytes),
+      E < 64 ->
+      offs_mono 0 evs ->
+      builder_filters pcreate E evs = Some fs ->
+      blen (concat fs) < 4294967296 ->
+      build_filter_block pcreate E evs = Some (serialize_filters E fs) /\
+      fr_new (serialize_filters E fs) = FOk (mkFR fs E) /\
+      forall s key, In (s, key) (seen_of 0 evs) ->
+        fr_key_may_match pmatch (mkFR fs E) s key = Some true.
+Proof. exact filter_block_events_sound_sharp. Qed.
+Print Assumptions C14_filter_block_events_sharp.
+
+(** parsing a builder-produced block cannot fail and returns exactly the builder's filters *)
+Theorem C14_filter_block_roundtrip :
+  forall (pcreate : list bytes -> option bytes) (E : N) (evs : list fb_event) (data : bytes),
+    blen data < 4294967296 ->
+    build_filter_block pcreate E evs = Some data ->
+    exists fs, builder_filters pcreate E evs = Some fs /\
+               data = serialize_filters E fs /\
+               fr_new data = FOk (mkFR fs E).
+Proof. exact filter_block_roundtrip. Qed.
+Print Assumptions C14_filter_block_roundtrip.
+
+Theorem C14_serialize_parse :
+  forall (E : N) (fs : list bytes),
+    blen (concat fs) < 4294967296 ->
+    fr_new (serialize_filters E fs) = FOk (mkFR fs E).
+Proof. exact fr_new_serialize. Qed.
+Print Assumptions C14_serialize_parse.
+
+(** with non-decreasing offsets the number of generated filters always equals the filter index
+    of the last notified offset (so pending keys of a block starting at [s] go to filter
+    [s / 2^E]) *)
+Theorem C14_builder_filter_count :
+  forall (pcreate : list bytes -> option bytes) (E : N) (evs : list fb_event) (b : fbuilder),
+    offs_mono 0 evs -> run_events pcreate E fb_new evs = Some b ->
+    N.of_nat (length (fb_filters b)) = last_off 0 evs / 2 ^ E.
+Proof. exact builder_filter_count. Qed.
+Print Assumptions C14_builder_filter_count.
+
+(** the builder panics only if the policy does *)
+Theorem C14_filter_block_builds :
+  forall (pcreate : list bytes -> option bytes) (E : N) (maxkeys : nat),
+    (forall ks, (length ks <= maxkeys)%nat -> exists f, pcreate ks = Some f) ->
+    forall evs, (count_keys evs <= maxkeys)%nat ->
+      exists data, build_filter_block pcreate E evs = Some data.
+Proof. exact build_filter_block_total. Qed.
+Print Assumptions C14_filter_block_builds.
+
+(** the instance used by raindb *)
+Theorem C14_filter_block_bloom :
+  forall (bpk : N) (blocks : list (list bytes * N)) (data : bytes) (r : freader),
+    (forall i ks e, nth_error blocks i = Some (ks, e) -> block_start blocks i <= e) ->
+    blen data < 4294967296 ->
+    fb_build bpk (events_of blocks) = Some data ->
+    fb_parse data = FOk r ->
+    forall i keys endoff key,
+      nth_error blocks i = Some (keys, endoff) -> In key keys ->
+      fb_match r (block_start blocks i) key = Some true.
+Proof. exact filter_block_bloom. Qed.
+Print Assumptions C14_filter_block_bloom.
+
+Theorem C14_filter_block_bloom_open :
+  forall (bpk : N) (blocks : list (list bytes * N)) (data : bytes) (r : freader),
+    (forall i ks e, nth_error blocks i = Some (ks, e) -> block_start blocks i <= e) ->
+    blen data < 4294967296 ->
+    fb_build bpk (events_of_open blocks) = Some data ->
+    fb_parse data = FOk r ->
+    forall i keys endoff key,
+      nth_error blocks i = Some (keys, endoff) -> In key keys ->
+      fb_match r (block_start blocks i) key = Some true.
+Proof. exact filter_block_bloom_open. Qed.
+Print Assumptions C14_filter_block_bloom_open.
+
+(** global sufficient condition for the bloom builder not to panic *)
+Theorem C14_filter_block_bloom_builds :
+  forall (bpk : N) (evs : list fb_event),
+    N.of_nat (count_keys evs) * bpk + 71 < 4294967296 ->
+    exists data, fb_build bpk evs = Some data.
+Proof. exact filter_block_bloom_builds. Qed.
+Print Assumptions C14_filter_block_bloom_builds.
+
+(** everything together *)
+Theorem C14_filter_block_bloom_total :
+  forall (bpk : N) (blocks : list (list bytes * N)),
+    (forall i ks e, nth_error blocks i = Some (ks, e) -> block_start blocks i <= e) ->
+    N.of_nat (count_keys (events_of blocks)) * bpk + 71 < 4294967296 ->
+    exists data,
+      fb_build bpk (events_of blocks) = Some data /\
+      (blen data < 4294967296 ->
+       exists r, fb_parse data = FOk r /\
+         forall i keys endoff key,
+           nth_error blocks i = Some (keys, endoff) -> In key keys ->
+           fb_match r (block_start blocks i) key = Some true).
+Proof. exact filter_block_bloom_total. Qed.
+Print Assumptions C14_filter_block_bloom_total.
+
+(** ** 4. Sensitivity witnesses *)
+
+(** a key queried at the start offset of a block in a different filter range is missed *)
+Theorem C14_wrong_offset_refuted :
+  exists (blocks : list (list bytes * N)) data r i j keys e key,
+    (forall i ks e, nth_error blocks i = Some (ks, e) -> block_start blocks i <= e) /\
+    fb_build 10 (events_of blocks) = Some data /\
+    blen data < 4294967296 /\
+    fb_parse data = FOk r /\
+    nth_error blocks i = Some (keys, e) /\ In key keys /\
+    (j < length blocks)%nat /\ j <> i /\
+    fb_match r (block_start blocks i) key = Some true /\
+    fb_match r (block_start blocks j) key = Some false.
+Proof. exact wrong_offset_refuted. Qed.
+Print Assumptions C14_wrong_offset_refuted.
+
+(** without non-decreasing offsets there are false negatives at the key's own block start *)
+Theorem C14_unordered_offsets_refuted :
+  exists evs data r pre key post,
+    evs = pre ++ EvKey key :: post /\
+    ~ offs_mono 0 evs /\
+    fb_build 10 evs = Some data /\
+    blen data < 4294967296 /\
+    fb_parse data = FOk r /\
+    fb_match r (last_off 0 pre) key = Some false.
+Proof. exact unordered_offsets_refuted. Qed.
+Print Assumptions C14_unordered_offsets_refuted.
+
+(** ** 3. Non-vacuity examples *)
+
+(** three data blocks ending at 100, 5000, 5100: blocks 0 and 1 start in the same 2 KiB range
+    (filter 0), block 1 spans ranges 0..2 (filter 1 is empty), block 2 starts in range 2 *)
+Example C14_example_table :
+  let blocks : list (list bytes * N) :=
+    [([[97]; [97; 98]], 100); ([[98]; [98; 99; 100; 101; 102]], 5000); ([[122]; []], 5100)] in
+  (forall i ks e, nth_error blocks i = Some (ks, e) -> block_start blocks i <= e) /\
+  N.of_nat (count_keys (events_of blocks)) * 10 + 71 < 4294967296 /\
+  block_start blocks 0 = 0 /\ block_start blocks 1 = 100 /\ block_start blocks 2 = 5000 /\
+  exists data r,
+    fb_build 10 (events_of blocks) = Some data /\
+    blen data < 4294967296 /\
+    fb_parse data = FOk r /\
+    length (fr_filters r) = 3%nat /\ nth 1 (fr_filters r) [0] = [] /\
+    fb_match r 0 [97] = Some true /\
+    fb_match r 0 [97; 98] = Some true /\
+    fb_match r 100 [98] = Some true /\
+    fb_match r 100 [98; 99; 100; 101; 102] = Some true /\
+    fb_match r 5000 [122] = Some true /\
+    fb_match r 5000 [] = Some true /\
+    (* and the filters do discriminate *)
+    fb_match r 0 [122] = Some false /\
+    fb_match r 2048 [97] = Some false.
+Proof.
+  cbv zeta. split.
+  { intros i ks e H. destruct i as [|[|[|i]]]; cbn [nth_error] in H.
+    - injection H as <- <-. vm_compute. discriminate.
+    - injection H as <- <-. vm_compute. discriminate.
+    - injection H as <- <-. vm_compute. discriminate.
+    - destruct i; discriminate. }
+  split; [vm_compute; reflexivity|].
+  split; [reflexivity|]. split; [reflexivity|]. split; [reflexivity|].
+  eexists. eexists.
+  split; [vm_compute; reflexivity|].
+  split; [vm_compute; reflexivity|].
+  split; [vm_compute; reflexivity|].
+  repeat split; vm_compute; reflexivity.
+Qed.
+
+(** the same table without the notification after the last block *)
+Example C14_example_table_open :
+  let blocks : list (list bytes * N) :=
+    [([[97]; [97; 98]], 100); ([[98]; [98; 99; 100; 101; 102]], 5000); ([[122]; []], 5100)] in
+  exists data r,
+    fb_build 10 (events_of_open blocks) = Some data /\
+    fb_parse data = FOk r /\
+    fb_match r 0 [97] = Some true /\
+    fb_match r 100 [98] = Some true /\
+    fb_match r 5000 [122] = Some true /\
+    fb_match r 5000 [] = Some true.
+Proof.
+  cbv zeta. eexists. eexists.
+  split; [vm_compute; reflexivity|].
+  split; [vm_compute; reflexivity|].
+  repeat split; vm_compute; reflexivity.
+Qed.
+
+(** bloom filter with duplicate keys and the empty key *)
+Example C14_example_bloom :
+  let keys : list bytes := [[]; [1; 2; 3]; [1; 2; 3]; [255]; [1; 2; 3; 4; 5; 6; 7]] in
+  filter_bits 10 (N.of_nat (length keys)) < 4294967296 /\
+  num_probes 10 = 6 /\
+  exists f,
+    bloom_create 10 keys = Some f /\
+    length f = 9%nat /\
+    bloom_match [] f = MOk true /\
+    bloom_match [1; 2; 3] f = MOk true /\
+    bloom_match [255] f = MOk true /\
+    bloom_match [1; 2; 3; 4; 5; 6; 7] f = MOk true /\
+    (* and the filter does discriminate *)
+    bloom_match [42] f = MOk false.
+Proof.
+  cbv zeta. split; [vm_compute; reflexivity|]. split; [vm_compute; reflexivity|].
+  eexists. split; [vm_compute; reflexivity|].
+  repeat split; vm_compute; reflexivity.
+Qed.
